@@ -368,7 +368,9 @@ def main(argv: list[str] | None = None) -> int:
         return 2
     if new_by_sig and replay_files:
         return 1
-    if total["runs"] == 0 or harness_n > max(3, total["runs"] * getattr(mod, "HARNESS_TOLERANCE", 0.02)):
+    # an exception escaping a run is never tolerated (it may be hiding a violation); step/time caps and deadlocks are, in small numbers
+    exc_n = sum(v for k, v in total["harness"].items() if k not in ("cap", "deadlock"))
+    if total["runs"] == 0 or exc_n > 0 or harness_n > max(3, total["runs"] * getattr(mod, "HARNESS_TOLERANCE", 0.02)):
         print(f"[{prop}] HARNESS-ERROR: {harness_n} of {total['runs']} runs hit harness conditions {total['harness']}")
         return 2
     if runs is not None and total["runs"] < runs:
